@@ -3,7 +3,8 @@
       "E" flags name ident host acct cmd n params...   one received event (as state.history)
       "S" kind name        kind = user | chan (LookupUser / LookupChannel name),
                                   users | chans (Users() / Channels(): every element becomes a snapshot),
-                                  uchans | cusers (name = decimal snapshot id: User.Channels(c) / Channel.Users(c))
+                                  uchans | cusers (name = decimal snapshot id: User.Channels(c) / Channel.Users(c));
+                                  suite heap.members.copied models these two as copying (the proposed fix)
       "M" id field index value   a write through snapshot `id` (see decode_mut)
       "A" id flags n args...     snap.Modes.Apply(snap.Modes.Parse(flags, args))
       "R"                        re-query: dump of Users() and Channels()
@@ -127,7 +128,7 @@ Definition decode_mut (snaps : list (option nat)) (o : nat) (field : str) (index
 
 Record dstate := mkD { d_w : world; d_snaps : list (option nat); d_out : list str }.
 
-Definition snap_op (d : dstate) (kind name : str) : res dstate :=
+Definition snap_op (copied : bool) (d : dstate) (kind name : str) : res dstate :=
   let w := d_w d in
   if streqb kind (bs "user") then
     r <- lookup_user_g w name ;;
@@ -145,7 +146,9 @@ Definition snap_op (d : dstate) (kind name : str) : res dstate :=
     match nth_error (d_snaps d) (nat_arg name) with
     | Some (Some o) =>
         match hget (w_heap w) o with
-        | Some (CUser _) => l <- user_channels_g w o ;; Ok (mkD w (d_snaps d ++ List.map Some l) (d_out d))
+        | Some (CUser _) =>
+            if copied then r <- user_channels_copied_g w o ;; Ok (mkD (mkWorld (fst r) (w_st w)) (d_snaps d ++ List.map Some (snd r)) (d_out d))
+            else l <- user_channels_g w o ;; Ok (mkD w (d_snaps d ++ List.map Some l) (d_out d))
         | _ => Ok d
         end
     | _ => Ok d
@@ -154,14 +157,16 @@ Definition snap_op (d : dstate) (kind name : str) : res dstate :=
     match nth_error (d_snaps d) (nat_arg name) with
     | Some (Some o) =>
         match hget (w_heap w) o with
-        | Some (CChan _) => l <- channel_users_g w o ;; Ok (mkD w (d_snaps d ++ List.map Some l) (d_out d))
+        | Some (CChan _) =>
+            if copied then r <- channel_users_copied_g w o ;; Ok (mkD (mkWorld (fst r) (w_st w)) (d_snaps d ++ List.map Some (snd r)) (d_out d))
+            else l <- channel_users_g w o ;; Ok (mkD w (d_snaps d ++ List.map Some l) (d_out d))
         | _ => Ok d
         end
     | _ => Ok d
     end
   else Ok d.
 
-Fixpoint run_ops (fuel : nat) (cfg : config) (d : dstate) (args : list str) : res dstate :=
+Fixpoint run_ops (copied : bool) (fuel : nat) (cfg : config) (d : dstate) (args : list str) : res dstate :=
   match fuel with
   | O => Ok d
   | S f =>
@@ -172,12 +177,12 @@ Fixpoint run_ops (fuel : nat) (cfg : config) (d : dstate) (args : list str) : re
             match decode_event13 rest with
             | Some (e, rest') =>
                 w' <- handle_h go_grow cfg (d_w d) e ;;
-                run_ops f cfg (mkD w' (d_snaps d) (d_out d)) rest'
+                run_ops copied f cfg (mkD w' (d_snaps d) (d_out d)) rest'
             | None => Ok d
             end
           else if streqb tag [83] then                             (* S *)
             match rest with
-            | kind :: name :: rest' => d' <- snap_op d kind name ;; run_ops f cfg d' rest'
+            | kind :: name :: rest' => d' <- snap_op copied d kind name ;; run_ops copied f cfg d' rest'
             | _ => Ok d
             end
           else if streqb tag [77] then                             (* M *)
@@ -191,7 +196,7 @@ Fixpoint run_ops (fuel : nat) (cfg : config) (d : dstate) (args : list str) : re
                               end
                           | _ => d
                           end in
-                run_ops f cfg d' rest'
+                run_ops copied f cfg d' rest'
             | _ => Ok d
             end
           else if streqb tag [65] then                             (* A *)
@@ -205,17 +210,17 @@ Fixpoint run_ops (fuel : nat) (cfg : config) (d : dstate) (args : list str) : re
                                   (d_snaps d) (d_out d)
                           | _ => d
                           end in
-                run_ops f cfg d' (skipn k rest')
+                run_ops copied f cfg d' (skipn k rest')
             | _ => Ok d
             end
           else if streqb tag [82] then                             (* R *)
             r <- requery (d_w d) ;;
-            run_ops f cfg (mkD (fst r) (d_snaps d) (d_out d ++ [82 :: snd r])) rest
+            run_ops copied f cfg (mkD (fst r) (d_snaps d) (d_out d ++ [82 :: snd r])) rest
           else if streqb tag [73] then                             (* I *)
             match rest with
             | id :: rest' =>
                 let o := match nth_error (d_snaps d) (nat_arg id) with Some s => inspect (d_w d) s | None => bs "none" end in
-                run_ops f cfg (mkD (d_w d) (d_snaps d) (d_out d ++ [[73] ++ show_nat (nat_arg id) ++ colon ++ o])) rest'
+                run_ops copied f cfg (mkD (d_w d) (d_snaps d) (d_out d ++ [[73] ++ show_nat (nat_arg id) ++ colon ++ o])) rest'
             | _ => Ok d
             end
           else Ok d
@@ -228,11 +233,11 @@ Fixpoint inspect_all (w : world) (i : nat) (l : list (option nat)) : list str :=
   | s :: r => ([73] ++ show_nat i ++ colon ++ inspect w s) :: inspect_all w (S i) r
   end.
 
-Definition run_heap (args : list str) : str :=
+Definition run_heap (copied : bool) (args : list str) : str :=
   match args with
   | nick :: usr :: rest =>
       let cfg := mkConfig nick usr in
-      match run_ops (S (length rest)) cfg (mkD world_init [] []) rest with
+      match run_ops copied (S (length rest)) cfg (mkD world_init [] []) rest with
       | Panic => bs "PANIC"
       | Ok d =>
           match requery (d_w d) with
@@ -245,5 +250,6 @@ Definition run_heap (args : list str) : str :=
 
 Definition run_C13 (suite : str) (args : list str) : option str :=
   if streqb suite (bs "heap.ops") || streqb suite (bs "heap.hostile") || streqb suite (bs "heap.members")
-  then Some (run_heap args)
+  then Some (run_heap false args)
+  else if streqb suite (bs "heap.members.copied") then Some (run_heap true args)
   else None.
